@@ -87,6 +87,13 @@ type vfC16Run struct {
 	abandon       bool
 	steps         int
 	slowStoreUsed bool
+
+	faults map[*vfMqClient]*vfMqFaultConn // connections served through a fault-injecting net.Conn
+	// a connection object of the id is still registered in the broker although the connection is
+	// dead as far as the broker's writer is concerned (CONNACK could not be written, or a later
+	// write failed and the cleanup ran while the reader still blocks)
+	deadRegistered bool
+	ntDead         bool
 }
 
 func (r *vfC16Run) log(format string, args ...interface{}) {
@@ -193,7 +200,19 @@ func (r *vfC16Run) connect(clean bool, takeover bool) {
 	if takeover {
 		oldBroker = r.rig.registered(vfC16CID)
 	}
-	c, err := r.rig.Dial(label)
+	var c *vfMqClient
+	var err error
+	if rapid.IntRange(0, 2).Draw(r.rt, "viaFaultConn") == 0 {
+		var fc *vfMqFaultConn
+		c, fc, err = r.rig.DialFault(label)
+		if err == nil {
+			r.faults[c] = fc
+			label += "(f)"
+			c.Label = label
+		}
+	} else {
+		c, err = r.rig.Dial(label)
+	}
 	if err != nil {
 		r.inconclusive("dial", err)
 	}
@@ -234,6 +253,10 @@ func (r *vfC16Run) connect(clean bool, takeover bool) {
 		if len(r.sess.topics) > 0 {
 			r.ntRestore = true
 			r.vf.Class("reconnect-restores-subscriptions")
+			if r.deadRegistered {
+				r.ntDead = true
+				r.vf.Class("nontrivial:restoring-reconnect-finds-dead-connection-registered")
+			}
 		}
 	} else {
 		if r.sess != nil && len(r.sess.topics) > 0 {
@@ -242,6 +265,7 @@ func (r *vfC16Run) connect(clean bool, takeover bool) {
 		r.sess = &vfC16Sess{clean: clean, topics: map[string]byte{}}
 		r.freshAfter = true
 	}
+	r.deadRegistered = false
 	// PINGREQ is handled by the read loop, which starts after handleConn re-subscribed the session
 	if _, err := c.Ping(); err != nil {
 		if c.EOF() {
@@ -395,6 +419,100 @@ func (r *vfC16Run) liveFailed(what string, err error) {
 		return
 	}
 	r.inconclusive(what, err)
+}
+
+// stepFailedConnect: a connection attempt that dies while the broker writes the CONNACK. The
+// broker has registered the client object and its session by then, and nothing removes them.
+func (r *vfC16Run) stepFailedConnect() {
+	clean := rapid.IntRange(0, 3).Draw(r.rt, "clean") == 0
+	label := fmt.Sprintf("conn%d(f)", len(r.rig.clients)+1)
+	r.log("failed-connect(%s clean=%v: CONNACK cannot be written)", label, clean)
+	r.vf.Class("step:failed-connect")
+	c, fc, err := r.rig.DialFault(label)
+	if err != nil {
+		r.inconclusive("dial", err)
+	}
+	fc.FailWrites()
+	if err := c.write(vfMqConnectPacket(vfC16CID, clean)); err != nil {
+		r.inconclusive("write connect", err)
+	}
+	select {
+	case <-fc.handled:
+	case <-time.After(vfMqWait):
+		r.inconclusive("failed connect", fmt.Errorf("handleConn did not return"))
+	}
+	c.WaitEOF(vfMqWait)
+	if err := r.rig.Quiesce(); err != nil {
+		r.inconclusive("quiesce", err)
+	}
+	// CONNECT was processed: cleanSession=true discards what was there; the connection is gone at once
+	if clean {
+		r.sess = nil
+	} else if r.sess == nil {
+		r.sess = &vfC16Sess{clean: false, topics: map[string]byte{}}
+	}
+	r.deadRegistered = r.rig.registered(vfC16CID) != nil
+}
+
+// stepWriteFailure: the broker's writes to the live connection start failing (peer vanished).
+// variant "publish": a matching message makes the writer notice; it runs the end-of-connection
+// cleanup while the reader still blocks, so the connection object stays registered.
+// variant "ping": the client's own PINGREQ makes the writer notice; the reader ends right after.
+func (r *vfC16Run) stepWriteFailure() {
+	fc := r.faults[r.live]
+	variant := "ping"
+	var topic string
+	var filters []string
+	for f := range r.sess.topics {
+		filters = append(filters, f)
+	}
+	sort.Strings(filters)
+	if len(filters) > 0 && rapid.IntRange(0, 3).Draw(r.rt, "wfVariant") > 0 {
+		variant = "publish"
+		topic = vfC16Instance(filters[0])
+	}
+	r.log("write-failure(%s noticed through %s)", r.live.Label, variant)
+	r.vf.Class("step:write-failure-" + variant)
+	if err := r.rig.Quiesce(); err != nil {
+		r.inconclusive("quiesce", err)
+	}
+	bc := r.rig.registered(vfC16CID)
+	fc.FailWrites()
+	c := r.live
+	if variant == "ping" {
+		if err := c.write(packets.NewControlPacket(packets.Pingreq)); err != nil {
+			r.liveFailed("write-failure", err)
+			return
+		}
+		if !c.WaitEOF(vfMqWait) {
+			r.inconclusive("write failure", fmt.Errorf("broker did not close %s after its write failed", c.Label))
+		}
+	} else {
+		r.probeSeq++
+		if code := r.rig.Publish(topic, 0, fmt.Sprintf("lost%d", r.probeSeq)); code != 200 {
+			r.inconclusive("http publish", fmt.Errorf("status %d", code))
+		}
+		if err := r.rig.FanoutBarrier(); err != nil {
+			r.inconclusive("fan-out barrier", err)
+		}
+		deadline := time.Now().Add(vfMqWait)
+		for bc != nil && !bc.disconnected() {
+			if time.Now().After(deadline) {
+				r.inconclusive("write failure", fmt.Errorf("broker did not give up %s after its write failed", c.Label))
+			}
+			time.Sleep(200 * time.Microsecond)
+		}
+		// the reader of that connection still blocks: its end comes later, like a superseded one's
+		r.olds = append(r.olds, &vfC16Old{c: c, topics: map[string]byte{}})
+	}
+	if err := r.rig.Quiesce(); err != nil {
+		r.inconclusive("quiesce", err)
+	}
+	r.live = nil
+	if r.sess != nil && r.sess.clean {
+		r.sess = nil
+	}
+	r.deadRegistered = r.rig.registered(vfC16CID) != nil
 }
 
 // stepEnd ends the live connection and waits until the broker finished its teardown.
@@ -688,16 +806,23 @@ func TestVerifC16Sessions(t *testing.T) {
 			rt.Fatalf("VF-INCONCLUSIVE start broker: %v", err)
 		}
 		defer rig.Close()
-		r := &vfC16Run{rt: rt, vf: vf, rig: rig, restored: map[string]bool{}}
+		r := &vfC16Run{rt: rt, vf: vf, rig: rig, restored: map[string]bool{}, faults: map[*vfMqClient]*vfMqFaultConn{}}
 		nSteps := rapid.IntRange(3, 12).Draw(rt, "nSteps")
 		for r.steps = 0; r.steps < nSteps && !r.abandon; r.steps++ {
 			r.sweep()
 			if r.live == nil {
-				r.connect(rapid.IntRange(0, 9).Draw(rt, "clean") < 4, false)
+				if rapid.IntRange(0, 5).Draw(rt, "failedAttempt?") == 0 {
+					r.stepFailedConnect()
+				} else {
+					r.connect(rapid.IntRange(0, 9).Draw(rt, "clean") < 4, false)
+				}
 			} else {
 				ops := []string{"sub", "sub", "sub", "unsub", "unsub", "pipelined", "end", "end"}
 				if len(r.olds) < 2 {
 					ops = append(ops, "takeover", "takeover")
+				}
+				if r.faults[r.live] != nil && len(r.olds) < 2 {
+					ops = append(ops, "write-failure", "write-failure", "write-failure")
 				}
 				if len(r.olds) > 0 {
 					if r.subAfterTake {
@@ -719,6 +844,8 @@ func TestVerifC16Sessions(t *testing.T) {
 					r.connect(rapid.IntRange(0, 9).Draw(rt, "clean") < 4, true)
 				case "teardown":
 					r.stepTeardown()
+				case "write-failure":
+					r.stepWriteFailure()
 				}
 			}
 			if r.live != nil && !r.abandon {
@@ -756,7 +883,7 @@ func TestVerifC16Sessions(t *testing.T) {
 		if r.ntRestore {
 			vf.Class("nontrivial:non-clean-reconnect-with-subscriptions")
 		}
-		vf.Case(r.ntTeardown || r.ntRestore, r.describe(), func() interface{} {
+		vf.Case(r.ntTeardown || r.ntRestore || r.ntDead, r.describe(), func() interface{} {
 			return map[string]interface{}{"script": r.describe(), "abandoned_at_known_finding": r.abandon}
 		})
 	})
